@@ -1177,12 +1177,34 @@ func unnamedOnlyRule(R string) RuleFunc {
 			c.Unresolved(R, fn)
 			return
 		}
+		mentionsHash := func(e ast.Expr) bool {
+			s := core.ExprStr(e)
+			return strings.Contains(s, "'#'") || strings.Contains(s, `"#"`)
+		}
+		// under a test against '#': inside such an `if`, or behind a guard `if <test> { continue / return }`
+		// that stands earlier in one of the enclosing blocks
 		hashTest := func(stack []ast.Node) bool {
-			for _, a := range stack {
-				if ifs, ok := a.(*ast.IfStmt); ok {
-					s := core.ExprStr(ifs.Cond)
-					if strings.Contains(s, "'#'") || strings.Contains(s, `"#"`) {
-						return true
+			for i, a := range stack {
+				if ifs, ok := a.(*ast.IfStmt); ok && mentionsHash(ifs.Cond) {
+					return true
+				}
+				blk, ok := a.(*ast.BlockStmt)
+				if !ok || i+1 >= len(stack) {
+					continue
+				}
+				for _, st := range blk.List {
+					if st == stack[i+1] {
+						break
+					}
+					if ifs, ok := st.(*ast.IfStmt); ok && mentionsHash(ifs.Cond) && len(ifs.Body.List) > 0 {
+						switch last := ifs.Body.List[len(ifs.Body.List)-1].(type) {
+						case *ast.BranchStmt:
+							if last.Tok == token.CONTINUE {
+								return true
+							}
+						case *ast.ReturnStmt:
+							return true
+						}
 					}
 				}
 			}
@@ -1256,8 +1278,15 @@ func unnamedOnlyRule(R string) RuleFunc {
 			ok := a.under
 			why := "under a test of the name against '#'"
 			if !ok {
-				// the name argument ranges over a filtered work list
+				// the name argument ranges over a filtered work list (range variable, or list[i])
 				arg := core.ExprStr(a.call.Args[0])
+				if ix, isIx := ast.Unparen(a.call.Args[0]).(*ast.IndexExpr); isIx {
+					list := core.ExprStr(ix.X)
+					if filtered[list] && !unfiltered[list] {
+						ok = true
+						why = "the name is an element of " + list + ", which is filled only under a test against '#'"
+					}
+				}
 				ast.Inspect(d.Decl.Body, func(n ast.Node) bool {
 					rs, isR := n.(*ast.RangeStmt)
 					if !isR || rs.Value == nil || core.ExprStr(rs.Value) != arg {
@@ -1751,16 +1780,15 @@ func inheritAllRule(R string) RuleFunc {
 			return
 		}
 		found := false
-		ast.Inspect(d.Decl.Body, func(n ast.Node) bool {
-			rs, ok := n.(*ast.RangeStmt)
-			if !ok || !strings.HasSuffix(core.ExprStr(rs.X), ".Children()") {
-				return true
+		for _, lp := range collLoops(d.Pkg, d.Decl.Body) {
+			if !strings.HasSuffix(lp.coll, ".Children()") {
+				continue
 			}
 			found = true
 			bad := ""
 			var stack []ast.Node
 			addChild := false
-			ast.Inspect(rs.Body, func(m ast.Node) bool {
+			ast.Inspect(lp.body, func(m ast.Node) bool {
 				if m == nil {
 					stack = stack[:len(stack)-1]
 					return true
@@ -1789,9 +1817,9 @@ func inheritAllRule(R string) RuleFunc {
 			if !addChild && bad == "" {
 				bad = "no AddChild call in the loop"
 			}
-			c.Check(bad == "", R, "extendWith:children", c.P.Pos(rs.Pos()), "every child of the inherited object is copied into the inheriting one", "some children are skipped ("+bad+")")
-			return true
-		})
+			c.Check(bad == "", R, "extendWith:children", c.P.Pos(lp.node.Pos()), "every child of the inherited object is copied into the inheriting one", "some children are skipped ("+bad+")")
+			break
+		}
 		if !found {
 			c.Bad(R, "extendWith:children", c.P.Pos(d.Decl.Pos()), "loop over the children of the inherited object", "not found")
 		}
